@@ -181,4 +181,19 @@ CHECKS = {
         'trusted_base': [KERNEL, AX, TIE, 'model Pangaea/Props/Truthy.lean is a hand transcription of isTruthy / canShortCut / evalShortCutInfix / evalIf / Obj#!; the per-type B built-ins are modelled only in the driver (Drv/C12.lean) and checked by the correspondence'],
         'assumptions': ['sub-expressions are arbitrary state transformers in the theorems', 'WF: the two bool singletons answer B with themselves (checked by the correspondence for true / false)'],
     },
+    'C18': {
+        'lean_modules': ['Pangaea.Theorems.C18'],
+        'theorem_modules': ['Pangaea.Theorems.C18'],
+        'theorems': ['Pangaea.C18.eqV_refl', 'Pangaea.C18.eqV_symm', 'Pangaea.C18.eq_symm', 'Pangaea.C18.ne_is_not_eq', 'Pangaea.C18.cmp3_laws',
+                     'Pangaea.C18.eqV_fam', 'Pangaea.C18.order_laws', 'Pangaea.C18.cmp3_trans', 'Pangaea.C18.cross_prototype_gap'],
+        'harness': ['C18'],
+        'spec_is_function': True,
+        'exhaustive': True,
+        'rule': 'a pool of 66 values (ints incl. two kinds of typed descendants and booleans, floats and strs with typed descendants, nil, nested arrays and objects; plus maps, ranges, functions, Either values, '
+                'bear children, typed arrays, iterators for the direct laws) bound once in one scope; all ordered pairs x {==, !=, <=>, <, <=, >, >=}: core pairs compared with the Lean model, and direct law checks on '
+                'the implementation: reflexivity, symmetry, != negation on all pairs; trichotomy, <=/>= unions, antisymmetry of <=>, max/min on all same-family pairs; transitivity, between?, clip on a third of the '
+                'same-family triples. non-trivial = pair of distinct pool entries / every law instance; distinct by expression text',
+        'trusted_base': [KERNEL, AX, TIE, 'model Pangaea/Props/Compare.lean is a hand transcription of the == / <=> built-ins of int, float, str, arr, baseobj, nil props and of Comparable.pangaea / BaseObj.pangaea'],
+        'assumptions': ['floats restricted to exactly representable halves (no NaN)', 'objects bind every name once (C09)', 'maps, ranges, functions, Either and error values are covered by the direct law oracle only'],
+    },
 }
